@@ -479,7 +479,7 @@ def _jobs_for(prop, tier):
         return [j for j in jobs_option_below(tier) if j[1][3] == 'combinations'] + jobs_combinations(tier) + jobs_axis0(tier, 'combinations')
     if prop == 'C03':
         return jobs_c03(tier) + jobs_option_reduce(tier) + jobs_axis(tier, ('reduce',)) + jobs_reduce_nonlocal(tier)
-    return {'C02': (lambda t: jobs_c02(t) + jobs_numpy_toregular(t)), 'C03': jobs_c03, 'C04': (lambda t: jobs_c04(t) + jobs_numpy_toregular(t)), 'C06': (lambda t: jobs_c06(t) + jobs_axis(t, ('sort', 'argsort')) + jobs_numpy_sort(t) + jobs_sort_nonlocal(t) + jobs_option_sort(t) + jobs_option_sort_above(t) + jobs_option_argsort(t) + jobs_string_argsort(t)), 'C08': (lambda t: jobs_c08(t) + jobs_numpy(t) + jobs_numpy_types(t) + jobs_union(t) + jobs_reverse_merge(t) + jobs_record_merge(t) + jobs_list_merge(t) + [j for j in jobs_record_named(t) if j[0] is h_record_mergemany_named] + jobs_merge_union(t) + jobs_union_ops(t)), 'C17': (lambda t: jobs_c17(t) + jobs_record_keys(t)), 'C12': (lambda t: jobs_numpy(t) + jobs_numpy_astype(t) + [(h_index_alloc, (), 900)] + [(h_axis0, (L_, 'combinations', n_, True), 900) for L_, n_ in ((1, 2), (2, 3), (1, 3), (0, 2))]), 'C10': (lambda t: jobs_c10(t) + [j for j in jobs_record_named(t) if j[0] is h_record_field_key] + jobs_project(t) + [j for j in jobs_option_below(t) if j[1][3] in ('getitem_field', 'getitem_fields')] + jobs_record_setitem(t)), 'C05': jobs_c05, 'C09': jobs_c09}.get(prop, lambda t: [])(tier)
+    return {'C02': (lambda t: jobs_c02(t) + jobs_numpy_toregular(t)), 'C03': jobs_c03, 'C04': (lambda t: jobs_c04(t) + jobs_numpy_toregular(t)), 'C06': (lambda t: jobs_c06(t) + jobs_axis(t, ('sort', 'argsort')) + jobs_numpy_sort(t) + jobs_sort_nonlocal(t) + jobs_option_sort(t) + jobs_option_sort_above(t) + jobs_option_argsort(t) + jobs_string_argsort(t)), 'C08': (lambda t: jobs_c08(t) + jobs_numpy(t) + jobs_numpy_types(t) + jobs_union(t) + jobs_reverse_merge(t) + jobs_record_merge(t) + jobs_list_merge(t) + [j for j in jobs_record_named(t) if j[0] is h_record_mergemany_named] + jobs_merge_union(t) + jobs_union_ops(t)), 'C17': (lambda t: jobs_c17(t) + jobs_record_keys(t)), 'C12': (lambda t: jobs_numpy(t) + jobs_numpy_astype(t) + [(h_index_alloc, (), 900)] + [(h_axis0, (L_, 'combinations', n_, True), 900) for L_, n_ in ((1, 2), (2, 3), (1, 3), (0, 2))] + [j for j in jobs_numpy_getitem(t) if j[1][3] == 'array']), 'C10': (lambda t: jobs_c10(t) + [j for j in jobs_record_named(t) if j[0] is h_record_field_key] + jobs_project(t) + [j for j in jobs_option_below(t) if j[1][3] in ('getitem_field', 'getitem_fields')] + jobs_record_setitem(t)), 'C05': jobs_c05, 'C09': jobs_c09}.get(prop, lambda t: [])(tier)
 
 
 # ------------------------------------------------------------------------------------------------ C01: getitem_next of list nodes
